@@ -98,8 +98,13 @@ def snap_var(v):
             "dtype": str(v.dtype), "values": vals, "variances": var}
 
 
-def snap_equal(a, b, rename=None) -> bool:
+def snap_equal(a, b, rename=None, any_dim_order=False) -> bool:
     da = tuple((rename or {}).get(d, d) for d in a["dims"])
+    if any_dim_order and da != b["dims"] and sorted(da) == sorted(b["dims"]):
+        perm = [b["dims"].index(d) for d in da]
+        b = dict(b, dims=da, shape=tuple(b["shape"][i] for i in perm),
+                 values=np.moveaxis(b["values"], perm, range(len(perm))),
+                 variances=None if b["variances"] is None else np.moveaxis(b["variances"], perm, range(len(perm))))
     if da != b["dims"] or a["shape"] != b["shape"] or a["unit"] != b["unit"] or a["dtype"] != b["dtype"]:
         return False
     if (a["variances"] is None) != (b["variances"] is None):
@@ -819,7 +824,8 @@ def check_convert(case):
             raise Violation("coord", f"{name}: alignment of unrelated coordinate {k!r} changed")
     for k, c in snap["coords"].items():
         # inputs of the conversion that are kept must keep their values
-        if k in out.coords and k != target and not snap_equal(c, snap_var(out.coords[k]), rename):
+        if k in out.coords and k != target and not snap_equal(c, snap_var(out.coords[k]), rename,
+                                                              any_dim_order=True):
             raise Violation("coord", f"{name}: input coordinate {k!r} changed in the result")
 
     # dense coordinate on the origin dim goes through the same function
@@ -1316,5 +1322,12 @@ def selftest():
     assert t0 < 1e-3 or math.isnan(r)
     if t0 < 1e-3:
         assert abs(r - (20.0 - e_f)) <= 1e-4 * max(20.0, e_f), (r, 20.0 - e_f)
+    # snapshots: dim order may be ignored on request, values may not
+    a = sc.array(dims=["y", "x"], values=np.arange(6.0).reshape(2, 3), unit="m")
+    b = a.transpose(["x", "y"]).copy()
+    assert snap_equal(snap_var(a), snap_var(b), any_dim_order=True)
+    assert not snap_equal(snap_var(a), snap_var(b))
+    b.values[0, 0] = 7.0
+    assert not snap_equal(snap_var(a), snap_var(b), any_dim_order=True)
     # the comparison machinery notices a swapped pair of events
     assert first_diff(np.array([1.0, 2.0]), np.array([2.0, 1.0])).startswith("element 0")
